@@ -154,6 +154,7 @@ func c01(r *core.Report) {
 			boundField := fieldByTag(b.boundTag)
 			atoms := core.Atoms(core.GuardsAt(info, fd.Body, site))
 			found, flagOK := "", b.flagTag == ""
+			byteLen := ""
 			var seen []string
 			for _, a := range atoms {
 				be, ok := ast.Unparen(a.Expr).(*ast.BinaryExpr)
@@ -188,6 +189,21 @@ func c01(r *core.Report) {
 				if op == b.failOp {
 					found = core.ExprStr(a.Expr)
 				}
+				// JSON-Schema string length counts characters (UTF-16 units here), never bytes: the
+				// value-side operand of a string-length keyword must not derive from len(<string>)
+				if b.fn == "Schema.visitJSONString" {
+					vs := lr
+					if rv {
+						vs = rr
+					}
+					for _, e := range vs.Exprs {
+						if c, ok := e.(*ast.CallExpr); ok && core.IsBuiltin(info, c, "len") && len(c.Args) == 1 {
+							if bt, ok := info.TypeOf(c.Args[0]).Underlying().(*types.Basic); ok && bt.Info()&types.IsString != 0 {
+								byteLen = p.Pos(c.Pos())
+							}
+						}
+					}
+				}
 			}
 			if found == "" {
 				r.Bad(key, p.Pos(site.Pos()), fmt.Sprintf("failure for %q must be guarded by `value %s %s`; guards relating value and bound found: %v", b.kw, b.failOp, b.boundTag, seen))
@@ -199,6 +215,10 @@ func c01(r *core.Report) {
 			}
 			if !flagOK {
 				r.Bad(key, p.Pos(site.Pos()), fmt.Sprintf("failure for %q is not guarded by the boolean field tagged %q", b.kw, b.flagTag))
+				continue
+			}
+			if byteLen != "" {
+				r.Bad(key, byteLen, fmt.Sprintf("the length compared with %q derives from len(<string>), a byte count: JSON-Schema string length counts characters, so non-ASCII strings get the wrong verdict", b.kw))
 				continue
 			}
 			r.OK(key, p.Pos(site.Pos()), "guard "+found+" == value "+b.failOp.String()+" "+b.boundTag)
